@@ -1,6 +1,8 @@
 import O4.Lemmas.Elligator
 import O4.Lemmas.Prime25519
 import O4.Generated.Consts.Ntor
+import O4.Generated.Facts.Ntor
+import O4.Generated.Facts.X25519ell2
 /-!
 # C07 — Elligator 2 key generation and decoding
 
@@ -245,5 +247,21 @@ theorem cosets :
     (∀ c < 8, ∀ c' < 8, c ≠ c' →
       Ed.eq (lowOrderTable.getD c Ed.identity) (lowOrderTable.getD c' Ed.identity) = false) := by
   refine ⟨by decide +kernel, by decide +kernel, by decide +kernel⟩
+
+
+/-- **structural fact, regenerated from the Go source on every run (go/ast)**: every package-level
+    variable (file-scope `var`) of the packages this property's mechanisms live in
+    (common/ntor, internal/x25519ell2) is one of the names below — error values, fixed byte strings,
+    flags and function hooks that the code only reads after initialisation.  The models treat all
+    other state as owned by one connection / one object; a NEW package-level variable (a cache, a
+    pool, a scratch buffer, a pre-keyed hash shared "to save allocations") is how such state comes
+    to be shared between connections and goroutines, which compiles, passes the tests and typically
+    needs true parallelism or a multi-connection history to misbehave.  Adding one breaks this
+    theorem; the concurrent / multi-connection families of the harness then search for the failing
+    schedule. -/
+theorem no_new_package_level_state :
+    O4.Facts.Ntor.pkg_vars ⊆ ["mExpand", "protoID", "tKey", "tMac", "tVerify"] ∧
+    O4.Facts.X25519ell2.pkg_vars ⊆ ["feA", "feLopX", "feLopY", "feNegTwo", "feOne", "feSqrtM1"] := by
+  decide
 
 end C07
